@@ -236,6 +236,19 @@ func run(sc vlib.Scenario, cfg vsched.Config) (*vsched.Result, vlib.Verdict) {
 			v.Fail("C15.false-positive", fmt.Sprintf("%s/traffic=%v/dev=%v", w.p.Mode, w.p.Traffic, dev), "every pong arrived within the timeout (%s) but the client gave up the connection at %v", w.p.Mode, w.Disc[0])
 		}
 	}
+	// every ping is a request of its own: ids pairwise distinct per connection and of the client's parity
+	seenID := map[string]bool{}
+	for _, e := range w.B.Pings {
+		id := uint32(e.Msg.(*message.Ping).RequestID)
+		k := fmt.Sprintf("%d/%d", e.Conn, id)
+		if seenID[k] {
+			v.Fail("C15.ping-id", "reused", "ping request id %d was used twice on incarnation %d", id, e.Conn)
+		}
+		seenID[k] = true
+		if id%2 != 0 {
+			v.Fail("C15.ping-id", "odd", "ping request id %d is not of the client's parity", id)
+		}
+	}
 	// broker pings answered by exactly one pong with the same id
 	for _, id := range w.bpingIDs {
 		n := 0
